@@ -130,3 +130,47 @@ package font
 //@   ensures utf16_be_bom: isnil(f.ToUnicodeCMap) && bomBE ==> sameseq(r, NormalizeUnicode(DecodeUTF16BE(data[2:])))
 //@   ensures utf16_le_bom: isnil(f.ToUnicodeCMap) && bomLE ==> sameseq(r, NormalizeUnicode(DecodeUTF16LE(data[2:])))
 //@   ensures raw_bytes_last: isnil(f.ToUnicodeCMap) && !bomBE && !bomLE && len(f.Encoding) == 0 ==> sameseq(r, NormalizeUnicode(data))
+
+// ---- ToUnicode CMap program parsing ----
+//@ func parseHexToUint32 results (v, err)
+//@   property C07
+//@   flags pure
+//@   ensures even_length_is_the_hex_value: mod(len(hexStr), 2) == 0 && !err ==> v == uint32(strconv.ParseUint(hexStr, 16, 32))
+
+//@ func hexToUnicode results (s, err)
+//@   property C07
+//@   flags pure
+//@   ensures !err ==> len(s) >= 0
+
+// beginbfchar: the hex strings <...> of the section are taken in order, in pairs (source code, target text); every
+// pair whose two parts are non-empty and well-formed defines exactly one mapping and touches no other.
+//@ func (*CMap) parseBfCharSection results (err)
+//@   property C07, C02
+//@   loop 0:
+//@     invariant 0 <= startIdx && startIdx <= len(section)
+//@     step next_bracketed_string: len(hexStrings) == prev(len(hexStrings)) + 1 && prev(startIdx) <= idx && idx < endIdx && endIdx < len(section) && startIdx == endIdx + 1 && section[idx] == '<' && section[endIdx] == '>' && sameseq(hexStrings[prev(len(hexStrings))], section[idx+1:endIdx])
+//@     step nothing_skipped: (forall k int :: {section[prev(startIdx):][k]} 0 <= k && k < idx - prev(startIdx) ==> section[prev(startIdx):][k] != '<') && (forall k int :: {section[idx:][k]} 0 <= k && k < endIdx - idx ==> section[idx:][k] != '>')
+//@     step earlier_strings_kept: forall k int :: {hexStrings[k]} 0 <= k && k < prev(len(hexStrings)) ==> hexStrings[k] == prev(hexStrings)[k]
+//@     decreases len(section) - startIdx
+//@   loop 1:
+//@     invariant 0 <= i && mod(i, 2) == 0
+//@     step pair_defines_one_mapping: let a = hexStrings[prev(i)] in let b = hexStrings[prev(i)+1] in len(a) > 0 && len(b) > 0 && !parseHexToUint32$1(a) && !hexToUnicode$1(b) ==> has(cm.charMappings, parseHexToUint32(a)) && sameseq(cm.charMappings[parseHexToUint32(a)], hexToUnicode(b))
+//@     step other_codes_untouched: forall k uint32 :: {cm.charMappings[k]} k != parseHexToUint32(hexStrings[prev(i)]) ==> has(cm.charMappings, k) == has(prev(cm.charMappings), k) && (has(cm.charMappings, k) ==> cm.charMappings[k] == prev(cm.charMappings)[k])
+//@     decreases len(hexStrings) - i
+
+// beginbfrange (no arrays): hex strings in order, in triples (first code, last code, first target); every well-formed
+// triple appends exactly one range with these three values, in section order.
+//@ func (*CMap) parseBfRangeSection results (err)
+//@   property C07, C02
+//@   loop 0:
+//@     invariant 0 <= startIdx && startIdx <= len(section)
+//@     step next_bracketed_string: len(hexStrings) == prev(len(hexStrings)) + 1 && prev(startIdx) <= idx && idx < endIdx && endIdx < len(section) && startIdx == endIdx + 1 && section[idx] == '<' && section[endIdx] == '>' && sameseq(hexStrings[prev(len(hexStrings))], section[idx+1:endIdx])
+//@     step nothing_skipped: (forall k int :: {section[prev(startIdx):][k]} 0 <= k && k < idx - prev(startIdx) ==> section[prev(startIdx):][k] != '<') && (forall k int :: {section[idx:][k]} 0 <= k && k < endIdx - idx ==> section[idx:][k] != '>')
+//@     step earlier_strings_kept: forall k int :: {hexStrings[k]} 0 <= k && k < prev(len(hexStrings)) ==> hexStrings[k] == prev(hexStrings)[k]
+//@     decreases len(section) - startIdx
+//@   loop 1:
+//@     invariant 0 <= i && mod(i, 3) == 0
+//@     step triple_appends_one_range: let a = hexStrings[prev(i)] in let b = hexStrings[prev(i)+1] in let c = hexStrings[prev(i)+2] in len(a) > 0 && len(b) > 0 && len(c) > 0 && !parseHexToUint32$1(a) && !parseHexToUint32$1(b) && !parseHexToUint32$1(c) ==> len(cm.rangeMappings) == prev(len(cm.rangeMappings)) + 1 && cm.rangeMappings[prev(len(cm.rangeMappings))].StartCode == parseHexToUint32(a) && cm.rangeMappings[prev(len(cm.rangeMappings))].EndCode == parseHexToUint32(b) && cm.rangeMappings[prev(len(cm.rangeMappings))].StartUnicode == parseHexToUint32(c)
+//@     step malformed_triple_adds_nothing: let a = hexStrings[prev(i)] in let b = hexStrings[prev(i)+1] in let c = hexStrings[prev(i)+2] in !(len(a) > 0 && len(b) > 0 && len(c) > 0 && !parseHexToUint32$1(a) && !parseHexToUint32$1(b) && !parseHexToUint32$1(c)) ==> len(cm.rangeMappings) == prev(len(cm.rangeMappings))
+//@     step earlier_ranges_kept: forall k int :: {cm.rangeMappings[k]} 0 <= k && k < prev(len(cm.rangeMappings)) ==> cm.rangeMappings[k] == prev(cm.rangeMappings)[k]
+//@     decreases len(hexStrings) - i
